@@ -37,7 +37,42 @@ def cases(rng, tier):
     return out
 
 
+def _optlist_under_list(t, under=False):
+    if t[0] == 'list':
+        return _optlist_under_list(t[1], True)
+    if t[0] == 'opt':
+        if t[1][0] == 'list' and under:
+            return True
+        return _optlist_under_list(t[1], under)
+    return False
+
+
+def _opt_of_str(t):
+    if t[0] == 'opt':
+        return t[1][0] == 'str' or _opt_of_str(t[1])
+    if t[0] == 'list':
+        return _opt_of_str(t[1])
+    return False
+
+
+def _optlist_anywhere(t):
+    if t[0] == 'opt':
+        return t[1][0] == 'list' or _optlist_anywhere(t[1])
+    if t[0] == 'list':
+        return _optlist_anywhere(t[1])
+    return False
+
+
 def signature(c, impl, v):
+    tg = c.meta.get('tags', {})
+    t = c.meta.get('type')
+    if t is not None:
+        if tg.get('op') == 'argsort' and not tg.get('innermost') and not v.startswith('viol closure'):
+            return 'argsort-nonlocal-positions'
+        if tg.get('op') == 'argsort' and _opt_of_str(t):
+            return 'argsort-option-strings-positions'
+        if _optlist_under_list(t) or (not tg.get('innermost') and _optlist_anywhere(t)):
+            return 'sort-option-lists-above-axis'
     lay = c.layouts[0]
     if lay.startswith('(par string') or lay.startswith('(par bytestring'):
         import re
